@@ -203,7 +203,14 @@ def _paths(d, prefix=()):
 
 
 NP = len(_paths(DictEncoder().encode(_OBJ)))
-DKINDS = ["drop", "rename", "tolist", "toscalar", "toobject", "nest", "null", "value", "unwrap", "topscalar", "topnull", "toplist"]
+DKINDS = ["drop", "rename", "tolist", "toscalar", "toobject", "nest", "null", "value", "unwrap", "topscalar", "topnull", "toplist", "derive", "deriveitem", "derivebad"]
+# element names of the document (compound choice names included): qnames for derived-element shaped objects {"qname", "type", "value"}
+_QN_POOL = []
+for _n in mutate.nodes(mutate.tree_for(_OBJ))[1:]:
+    _ln = _n.qname.split("}")[-1]
+    if _ln not in _QN_POOL:
+        _QN_POOL.append(_ln)
+_QN_POOL = (_QN_POOL + ["nope"])[:5] if _QN_POOL else ["nope"]
 
 
 def _get(d, path):
@@ -248,6 +255,14 @@ def dict_fault(p: int, k: int, txt: str, n: int) -> bool:
             return True
         del holder[key]
         holder.update(inner)  # the children of an object hoisted into its parent
+    elif kind == "derive":
+        # the value written the way xsdata writes a derived element: an object with qname / type / value
+        holder[key] = {"qname": key if isinstance(key, str) else _QN_POOL[0], "type": None, "value": holder[key]}
+    elif kind in ("deriveitem", "derivebad"):
+        if not isinstance(holder[key], list) or not holder[key]:
+            return True
+        qn = _QN_POOL[(n + 2) % len(_QN_POOL)]
+        holder[key][0] = {"qname": qn, "type": None, "value": txt if kind == "derivebad" else holder[key][0]}
     elif kind == "topscalar":
         data = n
     elif kind == "topnull":
@@ -394,9 +409,15 @@ def plan(tier):
                 continue
             if (kind in _NEEDS_PARENT and n_nodes < 3) or (kind in ("attr", "delattr") and not has_attrs):
                 continue  # fault kind not applicable to this document (would be a vacuous harness)
-            jobs.append(Job("fault", {"doc": doc, "kind": kind, "handler": ("native", "lxml")[(d_i + k_i) % 2], "strict": int((d_i + k_i) % 4 != 3), "fcw": (k_i // 2) % 2, "tlen": tlen}, 240, 30))
+            lenient = ((d_i + k_i) // 2) % 4 == 3  # independent of the handler rotation: both handlers meet the lenient mode
+            jobs.append(Job("fault", {"doc": doc, "kind": kind, "handler": ("native", "lxml")[(d_i + k_i) % 2], "strict": int(not lenient), "fcw": (k_i // 2) % 2, "tlen": tlen}, 240, 30))
             if not quick:
-                jobs.append(Job("fault", {"doc": doc, "kind": kind, "handler": ("lxml", "native")[(d_i + k_i) % 2], "strict": int((d_i + k_i) % 4 == 3), "fcw": 1 - (k_i // 2) % 2, "tlen": tlen}, 240, 30))
+                jobs.append(Job("fault", {"doc": doc, "kind": kind, "handler": ("lxml", "native")[(d_i + k_i) % 2], "strict": int(lenient), "fcw": 1 - (k_i // 2) % 2, "tlen": tlen}, 240, 30))
+    if quick:
+        for doc in ("parenta", "holder"):  # skipped subtrees (SkipNode) under both handlers
+            for kind in ("retag", "inject", "duplicate"):
+                for handler in ("native", "lxml"):
+                    jobs.append(Job("fault", {"doc": doc, "kind": kind, "handler": handler, "strict": 0, "fcw": 0, "tlen": tlen}, 240, 30))
     jobs.append(Job("syntax_error", {"doc": "basic"}, 60, 10))
     for doc in (["basic", "holder", "qnames", "mixed", "wild", "anytyped"] if quick else sorted(mutate.DOCS)):
         for tkind in ("truncate", "junk", "flip"):
@@ -408,4 +429,9 @@ def plan(tier):
         jobs.append(Job("dict_fault", {"doc": doc, "strict": 1, "fcw": d_i % 2, "tlen": tlen}, 240, 30))
         if not quick or d_i % 2 == 0:
             jobs.append(Job("dict_fault", {"doc": doc, "strict": 0, "fcw": (d_i + 1) % 2, "tlen": tlen}, 240, 30))
-    return jobs
+    seen, uniq = set(), []
+    for j in jobs:
+        if j.key not in seen:
+            seen.add(j.key)
+            uniq.append(j)
+    return uniq
